@@ -71,6 +71,19 @@ def _dparams(shape, dvp, pol=0, skip_first=False):
     return ", ".join(out[1:] if skip_first else out)
 
 
+def _tagcheck(shape, dvp):
+    """the definition looks at what it received: every virtual argument must be an object whose K<class> sub-object carries
+    that class's tag (a pointer that was not adjusted reads something else)"""
+    out, vi = [], 0
+    for i, ch in enumerate(shape):
+        if ch == "N":
+            continue
+        k = dvp[vi]
+        vi += 1
+        out.append("a%d%stag%d == %d" % (i, "." if ch == "V" else "->", k, k))
+    return " && ".join(out) or "true"
+
+
 def _fwd(shape):
     return ", ".join(("n%d" if ch == "N" else "a%d") % i for i, ch in enumerate(shape))
 
@@ -213,7 +226,8 @@ def scenario(idx, classes, edges, statements, methods, defs, abstract=(), shapes
         sh = shape_of(m, mvp[m])
         k = sdef.get((m, d), "plain")
         ps, fw = _dparams(sh, vp, pol), _fwd(sh)
-        body = "{ if (g_via_next) { g_via_next = false; return next(%s); } return %d; }" % (fw, d)
+        chk = _tagcheck(sh, vp)
+        body = "{ if (!(%s)) return -77; if (g_via_next) { g_via_next = false; return next(%s); } return %d; }" % (chk, fw, d)
         if k in ("plain", "box", "inline"):
             head = {"plain": "define_method(int, %s, " % mname(m), "box": "define_method(box%d, int, %s, " % (m, mname(m)),
                     "inline": "define_method_inline(box%d, int, %s, " % (m, mname(m))}[k]
@@ -226,14 +240,14 @@ def scenario(idx, classes, edges, statements, methods, defs, abstract=(), shapes
             o.append("M%d::next_type D%d_%d::next;" % (m, m, d))
             o.append("static M%d::add_definition<D%d_%d> YOMM2_GENSYM;" % (m, m, d))
         elif k == "api_plain":
-            o.append("struct D%d_%d { static int fn(%s) { return %d; } };" % (m, d, ps, d))
+            o.append("struct D%d_%d { static int fn(%s) { if (!(%s)) return -77; return %d; } };" % (m, d, ps, chk, d))
             o.append("static M%d::add_definition<D%d_%d> YOMM2_GENSYM;" % (m, m, d))
         elif k == "api_fun":
             o.append("static M%d::next_type nx%d_%d;" % (m, m, d))
-            o.append("static int f%d_%d(%s) { if (g_via_next) { g_via_next = false; return nx%d_%d(%s); } return %d; }" % (m, d, ps, m, d, fw, d))
+            o.append("static int f%d_%d(%s) { if (!(%s)) return -77; if (g_via_next) { g_via_next = false; return nx%d_%d(%s); } return %d; }" % (m, d, ps, chk, m, d, fw, d))
             o.append("static M%d::add_function<f%d_%d> YOMM2_GENSYM(&nx%d_%d);" % (m, m, d, m, d))
         elif k == "api_fun0":
-            o.append("static int f%d_%d(%s) { return %d; }" % (m, d, ps, d))
+            o.append("static int f%d_%d(%s) { if (!(%s)) return -77; return %d; }" % (m, d, ps, chk, d))
             o.append("static M%d::add_function<f%d_%d> YOMM2_GENSYM;" % (m, m, d))
         elif k == "member":
             o.append("int K%d::mf%d_%d(%s) { return tag%d == %d ? %d : -77; }" % (vp[0], m, d, _dparams(sh, vp, pol, True), vp[0], vp[0], d))
@@ -281,6 +295,12 @@ def scenario(idx, classes, edges, statements, methods, defs, abstract=(), shapes
             "(int)yorel::yomm2::detail::has_static_offsets<method_class(int, %s, (%s)%s)>::value" % (mname(m), _mparams(shape_of(m, vp), vp, pol), polarg)
         o.append('    std::printf("{\\"e\\":\\"method\\",\\"p\\":%d,\\"m\\":%d,\\"shape\\":\\"%s\\",\\"vp\\":%s,\\"so\\":%%d}\\n", %s);' %
                  (pol, idx * 100 + m, shape_of(m, vp), str(list(vp)).replace(" ", ""), so))
+        if smeth.get(m, "free") != "static":
+            # a program built with the generated slots.hpp in which a method of the policy has no generated offsets: an event the
+            # specification has no action for ("for every method ... the slots and strides written by the generator")
+            o.append("#if defined(VERIF_STAGE) && (VERIF_STAGE == 2 || VERIF_STAGE == 3)")
+            o.append('    if (!(%s)) std::printf("{\\"e\\":\\"no_static_offsets\\",\\"p\\":%d,\\"m\\":%d}\\n");' % (so, pol, idx * 100 + m))
+            o.append("#endif")
     for m, d, vp in defs:
         o.append('    std::printf("{\\"e\\":\\"def\\",\\"p\\":%d,\\"m\\":%d,\\"d\\":%d,\\"vp\\":%s}\\n");' %
                  (pol, idx * 100 + m, d, str(list(vp)).replace(" ", "")))
